@@ -151,6 +151,20 @@ def families(eng, tier, seed):
             if ename in ("nested-struct-other-path", "boxed-self-vs-plain"): continue
             for order in (0, 1): fams.append(make_family("edit-%s-o%d-%s" % (ename, order, ho), c03.edit_family(ename, efn, order), ho))
         for n, mk in digit_families() + c03.generic_families() + c03.recursive_families(): fams.append(make_family("%s-%s" % (n, ho), mk, ho))
+        if tier == "thorough":
+            E = [e for e in c03.edits() if e[0] not in ("nested-struct-other-path", "boxed-self-vs-plain")]
+            # four members under one path: the subject, two different single edits of it, and a copy of the first edit (same group)
+            for i in range(0, len(E), 2):
+                for j in range(1, len(E), 3):
+                    if i == j: continue
+                    def mk(eng, a=E[i][1], b=E[j][1]):
+                        reg, s = c03.base_subject()
+                        ids = [s]
+                        for fn in (a, b, a):
+                            reg.append(regdsl._clone(reg[s])); c = len(reg) - 1; n0 = len(reg); fn(reg, c); ids.append(c)
+                        reg.append(comp(["m", "H"], [fld("f%d" % k, x, "S") for k, x in enumerate(ids)]))
+                        return reg
+                    fams.append(make_family("four-members-%s+%s-%s" % (E[i][0], E[j][0], ho), mk, ho))
     return fams
 
 def confirm(v, real):
